@@ -378,10 +378,10 @@ func c23RunSets(t *testing.T, r *vlib.Run, bounds bool) bool {
 	maxset := vlib.Pick(r, 3, 4)
 	orders := vlib.Pick(r, []string{"fwd"}, []string{"fwd", "rev"})
 
-	// the height alphabet: at the shifted bases quick stores every set of at most 2 of 6 shapes, thorough of at most 3 of all 20
-	bmaxset := vlib.Pick(r, 2, 3)
+	// the height alphabet: at the shifted bases every set of at most 2 of 6 shapes (quick) / of all 20 (thorough) is stored
+	bmaxset := 2
 	bshapes := vlib.Pick(r, []string{"n1:1-2", "n1:2-4", "n1:3-3", "n1:4-4", "n2:1-2", "n2:2-3"}, nil)
-	borders := []string{"fwd"}
+	borders := orders
 
 	_, replaying := r.Replaying()
 	if replaying {
